@@ -122,6 +122,23 @@ pub fn profile(name: &str) -> Option<Profile> {
             rrdp_swarm: true,
             ..base
         },
+        "c19" => Profile {
+            name: "c19",
+            oracles: Oracles { c19: true, c06: true, ..Default::default() },
+            gen_cfg: GenCfg {
+                w_config: 25,
+                w_entitlement: 18,
+                w_removal: 22,
+                w_keyroll: 10,
+                w_maintenance: 20,
+                w_clock: 10,
+                w_status: 8,
+                pump_pct: 70,
+                ..GenCfg::default()
+            },
+            rebuild_checks: true,
+            ..base
+        },
         "all" => Profile {
             name: "all",
             oracles: Oracles::all(),
